@@ -544,7 +544,7 @@ pub fn check(case: &Case) -> Result<Stats, String> {
 // ---------------------------------------------------------------------------------------------
 // generation
 
-const PATHS: &[&str] = &["/a", "/b", "/c", "/d", "/loop1", "/loop2", "/old", "/new", "/a/@n", "/x?y=1"];
+const PATHS: &[&str] = &["/a", "/b", "/c", "/d", "/loop1", "/loop2", "/old", "/new", "/a/@n", "/x?y=1", "/Shop/@n", "/Shop/@n/x", "/Old"];
 
 fn example_json(rng: &mut Rng, url: &str, must_match: bool, unit_ids: Vec<String>) -> Value {
     let mut e = serde_json::Map::new();
@@ -702,6 +702,10 @@ pub fn random_case(rng: &mut Rng) -> Case {
     let mut cfg = Cfg::plain();
     cfg.always_match_any_host = rng.coin();
     cfg.ignore_marketing_query_params = rng.coin();
+    // case policies: the incrementally updated router must keep them through emptied and refilled buckets
+    cfg.ignore_path_and_query_case = rng.chance(1, 3);
+    cfg.ignore_host_case = rng.chance(1, 4);
+    cfg.ignore_header_case = rng.chance(1, 4);
     let n_ids = rng.range(3, 9);
     let ids: Vec<String> = (0..n_ids).map(|i| format!("r{i}")).collect();
     let mut base = Vec::new();
